@@ -11,6 +11,9 @@
      - consequently an address outside the net, or covered by the exclusion list, is in no frame and in
        no Scan call of any such run                                   (C02_wire_never_foreign)
 
+     - for target files: every frame / Scan call goes to an address that a well-formed line of the file
+       names and that the exclusion list does not cover     (C02_wire_confined_file, C02_scan_confined_file)
+
    wire_outcome / scan_outcome / engine_runs are those of Properties/C01Wire.v (Proofs/WireCoverage.v,
    Proofs/ScanCoverage.v).  Only statements and the three-line derivations from C01_on_the_wire /
    C01_scanned and spec_denote_subnet_inside; no new model. *)
@@ -18,7 +21,7 @@ From stdpp Require Import list.
 From SX Require Import Base.Net Base.NetExec Proofs.PipelineOrder Proofs.PipelineWire Proofs.AppEngineScans.
 From Coq Require Import ZArith.
 From SX Require Import Model.IPNet Model.Exclude Model.Targets Model.FileTargets Model.TargetWiring Proofs.WiringProofs Proofs.WireCoverage
-  Proofs.ScanCoverage Proofs.ConfinementProofs Gen.GroupsTable Gen.TargetWiring Proofs.TargetsTable
+  Proofs.ScanCoverage Proofs.ConfinementProofs Proofs.ConfinementFile Gen.GroupsTable Gen.TargetWiring Proofs.TargetsTable
   Properties.C01 Properties.C01Wire.
 Local Open Scope nat_scope.
 
@@ -69,6 +72,40 @@ Proof.
   destruct Hout as [H|H]; congruence.
 Qed.
 
+(* target FILES (-f: ip/port pairs, or addresses combined with -p; icmp: addresses): every frame on the wire /
+   every target scanned, in every schedule of every engine run, is addressed to an address that a
+   well-formed line of the file names (line_addr: a JSON line whose "ip" is a 4- or 16-byte address) and
+   that the exclusion list does not cover -- nothing the file does not list is ever probed *)
+Theorem C02_wire_confined_file : forall cmd, In cmd commands -> forall k f inp n,
+  class_of cmd = Some k -> c_engine cmd <> EGeneric -> valid_spec k f inp n -> f_file f = true ->
+  exists runs, engine_runs cyclic_groups chunk_size empty_runs_once cmd f inp = Some runs /\
+    forall wss, Forall2 wire_outcome runs wss ->
+    forall a p, In (a, p) (concat wss) ->
+      kept (class_stages k f inp) a = true /\ In a (flat_map line_addr (i_file inp)).
+Proof.
+  intros cmd Hcmd k f inp n Hc He V Ef.
+  destruct (C01_on_the_wire cmd Hcmd k f inp n Hc He V) as (runs & Hr & Hall).
+  exists runs. split; [exact Hr|]. intros wss Hw a p Hin.
+  apply (spec_denote_file_inside k f inp n a p Ef).
+  - intros ->. pose proof (vs_arp_nofile _ _ _ _ V eq_refl) as H. congruence.
+  - apply elem_of_list_In. rewrite <- (Hall wss Hw). apply elem_of_list_In. exact Hin.
+Qed.
+
+Theorem C02_scan_confined_file : forall cmd, In cmd commands -> forall k f inp n,
+  class_of cmd = Some k -> c_engine cmd = EGeneric -> valid_spec k f inp n -> f_file f = true ->
+  exists runs, engine_runs cyclic_groups chunk_size empty_runs_once cmd f inp = Some runs /\
+    forall wss, Forall2 scan_outcome runs wss ->
+    forall a p, In (a, p) (concat wss) ->
+      kept (class_stages k f inp) a = true /\ In a (flat_map line_addr (i_file inp)).
+Proof.
+  intros cmd Hcmd k f inp n Hc He V Ef.
+  destruct (C01_scanned cmd Hcmd k f inp n Hc He V) as (runs & Hr & Hall).
+  exists runs. split; [exact Hr|]. intros wss Hw a p Hin.
+  apply (spec_denote_file_inside k f inp n a p Ef).
+  - intros ->. pose proof (vs_arp_nofile _ _ _ _ V eq_refl) as H. congruence.
+  - apply elem_of_list_In. rewrite <- (Hall wss Hw). apply elem_of_list_In. exact Hin.
+Qed.
+
 (* non-vacuity: the complete 2-worker run of C01_ex_wire puts two frames on the wire, both inside
    10.0.0.8/31 *)
 Example C02_ex_wire_inside :
@@ -76,6 +113,40 @@ Example C02_ex_wire_inside :
          [([10;0;0;8], 81); ([10;0;0;8], 80)]%Z.
 Proof. repeat constructor. Qed.
 
+(* non-vacuity of the file-mode statements: `sx tcp syn -f pairs.jsonl --exclude ...` on a two-line pairs file
+   whose second address is excluded is a valid specification; the command probes exactly 1.2.3.4:80 *)
+Definition exf_inp : inputs :=
+  {| i_dst := None; i_file := [LJson (Some (Some [1;2;3;4])) (Some 80); LJson (Some (Some [1;2;3;5])) (Some 443)];
+     i_openable := true; i_nets := [([1;2;3;5], [255;255;255;255])];
+     i_cache := {| ac_entries := []; ac_gateway := [2;0;0;0;0;1] |};
+     i_ports := []; i_dp := fun _ _ => (5, 7); i_di := fun _ _ => (3, 9) |}%Z.
+Definition exf_cfg : cfg :=
+  {| f_file := true; f_ports := false; f_exclude := true; f_cache := true; f_live := false; f_stdin := false |}.
+Example C02_exf_valid_spec : class_of ex_cmd = Some KPortPacket /\ c_engine ex_cmd <> EGeneric /\
+  valid_spec KPortPacket exf_cfg exf_inp ([0;0;0;0], [0;0;0;0])%Z.
+Proof.
+  split; [vm_compute; reflexivity|]. split; [vm_compute; discriminate|].
+  constructor.
+  - reflexivity.
+  - intros _; reflexivity.
+  - intros H; discriminate.
+  - intros H; discriminate.
+  - split; [intros H; discriminate|intros H; exfalso; apply H; reflexivity].
+  - constructor.
+  - intros _ H; discriminate.
+  - intros _ _ _. vm_compute. reflexivity.
+  - intros [_ [H|H]]; discriminate.
+  - intros _; discriminate.
+  - intros c i. cbn. lia.
+  - intros c i. cbn. lia.
+Qed.
+Example C02_exf_command :
+  option_map probes (run_command cyclic_groups chunk_size empty_runs_once ex_cmd exf_cfg exf_inp)
+  = Some [([1;2;3;4], 80)]%Z.
+Proof. vm_compute. reflexivity. Qed.
+
 Print Assumptions C02_wire_confined.
 Print Assumptions C02_scan_confined.
 Print Assumptions C02_wire_never_foreign.
+Print Assumptions C02_wire_confined_file.
+Print Assumptions C02_scan_confined_file.
